@@ -7,9 +7,9 @@ SPEC = {
     "agrees": "C12.agrees",
     "in_domain": "C12.in_domain",
     "model_prop": "C12.model_limit",
-    "n_quick": 130,
+    "n_quick": 70,
     "n_thorough": 4000,
-    "shard": 10,
+    "shard": 5,
     "rule": "see harness/props/c12.go: one fixed or variable bucket per case on a real instance, written through WriteCSM over 1-3 years, "
             "state = the unlimited all-time query regrouped into index slots; 3-6 queries per case (all-time / one- / two-sided ranges with "
             "bounds on records, interval boundaries and inside intervals; N in {1,2,3,total-1,total,total+k,8191..16385,random}; from start "
